@@ -1,4 +1,651 @@
-/- helper lemmas (BodyRead) -/
+/- helper lemmas (BodyRead): body readers deliver exactly the framed body -/
 import TinyHttpModel.WireSpec
 namespace TH
+
+theorem take_isEmpty_false (B : Bytes) (n : Nat) (hB : B ≠ []) (hn : 1 ≤ n) : (B.take n).isEmpty = false := by
+  cases B with
+  | nil => contradiction
+  | cons x xs => cases n with
+    | zero => omega
+    | succ k => simp
+
+theorem take_take_drop (B : Bytes) (n total : Nat) (h : n ≤ total) :
+    B.take n ++ (B.drop n).take (total - n) = B.take total := by
+  have : total = n + (total - n) := by omega
+  rw [this, List.take_add]; simp
+
+theorem cursor_readUpTo (fuel : Nat) : ∀ (B bs : Bytes) (buf total : Nat) (fin : EndState),
+    1 ≤ buf → total < fuel →
+    Body.readUpTo fuel (.cursor B) buf total bs fin =
+      if total ≤ B.length then (B.take total, none, .cursor (B.drop total), bs)
+      else (B, some .eof, .cursor [], bs) := by
+  induction fuel with
+  | zero => intro B bs buf total fin hb hf; omega
+  | succ fuel ih =>
+    intro B bs buf total fin hb hf
+    rw [Body.readUpTo]
+    by_cases ht : total = 0
+    · subst ht; simp
+    · simp only [ht, if_false]
+      by_cases hB : B = []
+      · subst hB
+        have : ¬ total ≤ 0 := by omega
+        simp [Body.read, this]
+      · have hl : B.length ≠ 0 := by simpa using hB
+        have hemp : B.isEmpty = false := by simpa using hB
+        simp only [Body.read, hemp, Bool.false_eq_true, if_false]
+        generalize hn : min buf total = n
+        have hn1 : 1 ≤ n := by omega
+        have hn3 : n ≤ total := by omega
+        simp only [take_isEmpty_false B n hB hn1, Bool.false_eq_true, if_false]
+        have htl : (B.take n).length = min n B.length := by simp
+        rw [ih (B.drop n) bs buf (total - (B.take n).length) fin hb (by omega)]
+        rw [htl]
+        have hdl : (B.drop n).length = B.length - n := by simp
+        rw [hdl]
+        by_cases hle : total ≤ B.length
+        · have h1 : min n B.length = n := by omega
+          have : total - n ≤ B.length - n := by omega
+          rw [h1]
+          simp only [this, hle, if_true, List.drop_drop, take_take_drop B n total hn3]
+          have e3 : n + (total - n) = total := by omega
+          rw [e3]
+        · have : ¬ total - min n B.length ≤ B.length - n := by omega
+          simp [this, hle]
+
+theorem raw_readUpTo (fuel : Nat) : ∀ (bs : Bytes) (buf total : Nat),
+    1 ≤ buf → total < fuel →
+    Body.readUpTo fuel .raw buf total bs .eof =
+      if total ≤ bs.length then (bs.take total, none, .raw, bs.drop total)
+      else (bs, some .eof, .raw, []) := by
+  induction fuel with
+  | zero => intro bs buf total hb hf; omega
+  | succ fuel ih =>
+    intro B buf total hb hf
+    rw [Body.readUpTo]
+    by_cases ht : total = 0
+    · subst ht; simp
+    · simp only [ht, if_false]
+      by_cases hB : B = []
+      · subst hB
+        have : ¬ total ≤ 0 := by omega
+        simp [Body.read, this, EndState.stop]
+      · have hl : B.length ≠ 0 := by simpa using hB
+        simp only [Body.read]
+        generalize hn : min buf total = n
+        have hn1 : 1 ≤ n := by omega
+        have hn3 : n ≤ total := by omega
+        simp only [take_isEmpty_false B n hB hn1, Bool.false_eq_true, if_false]
+        have htl : (B.take n).length = min n B.length := by simp
+        rw [ih (B.drop n) buf (total - (B.take n).length) hb (by omega)]
+        rw [htl]
+        have hdl : (B.drop n).length = B.length - n := by simp
+        rw [hdl]
+        by_cases hle : total ≤ B.length
+        · have h1 : min n B.length = n := by omega
+          have : total - n ≤ B.length - n := by omega
+          rw [h1]
+          simp only [this, hle, if_true, List.drop_drop, take_take_drop B n total hn3]
+          have e3 : n + (total - n) = total := by omega
+          rw [e3]
+        · have : ¬ total - min n B.length ≤ B.length - n := by omega
+          simp [this, hle]
+
+theorem done_readUpTo (bs : Bytes) (buf total fuel : Nat) (fin : EndState) (ht : 0 < total) (hf : 0 < fuel) :
+    Body.readUpTo fuel .done buf total bs fin = ([], some .eof, .done, bs) := by
+  cases fuel with
+  | zero => omega
+  | succ f =>
+    have : total ≠ 0 := by omega
+    simp [Body.readUpTo, this, Body.read]
+
+theorem limited_read_step (B after : Bytes) (want : Nat) (fin : EndState) (hB : B ≠ []) :
+    Body.read (.limited B.length) want (B ++ after) fin =
+      (.data (B.take (min want B.length)), .limited (B.length - min want B.length),
+        B.drop (min want B.length) ++ after) := by
+  have hl : B.length ≠ 0 := by simpa using hB
+  have hne : B ++ after ≠ [] := by simp [hB]
+  have h1 : min (min want B.length) (B ++ after).length = min want B.length := by
+    simp only [List.length_append]; omega
+  have h2 : min want B.length ≤ B.length := by omega
+  unfold Body.read
+  simp only [hl, if_false]
+  simp only [h1]
+  simp [List.take_append_of_le_length h2, List.drop_append_of_le_length h2]
+
+theorem limited_readUpTo (fuel : Nat) : ∀ (B after : Bytes) (buf total : Nat) (fin : EndState),
+    1 ≤ buf → total < fuel →
+    Body.readUpTo fuel (.limited B.length) buf total (B ++ after) fin =
+      if total ≤ B.length then (B.take total, none, .limited (B.length - total), B.drop total ++ after)
+      else (B, some .eof, .done, after) := by
+  induction fuel with
+  | zero => intro B after buf total fin hb hf; omega
+  | succ fuel ih =>
+    intro B after buf total fin hb hf
+    rw [Body.readUpTo]
+    by_cases ht : total = 0
+    · subst ht; simp
+    · simp only [ht, if_false]
+      by_cases hB : B = []
+      · subst hB
+        have : ¬ total ≤ 0 := by omega
+        simp [Body.read, this]
+      · rw [limited_read_step B after _ fin hB]
+        have hl : B.length ≠ 0 := by simpa using hB
+        generalize hn : min (min buf total) B.length = n
+        have hn1 : 1 ≤ n := by omega
+        have hn2 : n ≤ B.length := by omega
+        have hn3 : n ≤ total := by omega
+        have hne : (B.take n).isEmpty = false := by
+          cases B with
+          | nil => contradiction
+          | cons x xs => cases n with
+            | zero => omega
+            | succ k => simp
+        simp only [hne, Bool.false_eq_true, if_false]
+        have hlen : (B.drop n).length = B.length - n := by simp
+        have := ih (B.drop n) after buf (total - (B.take n).length) fin hb (by simp; omega)
+        rw [hlen] at this
+        rw [this]
+        have htl : (B.take n).length = n := by simp; omega
+        rw [htl]
+        by_cases hle : total ≤ B.length
+        · have : total - n ≤ B.length - n := by omega
+          simp only [this, hle, if_true, List.drop_drop]
+          have e1 : List.take n B ++ List.take (total - n) (List.drop n B) = List.take total B := by
+            have : total = n + (total - n) := by omega
+            rw [this, List.take_add]; simp
+          have e2 : B.length - n - (total - n) = B.length - total := by omega
+          have e3 : n + (total - n) = total := by omega
+          rw [e1, e2, e3]
+        · have : ¬ total - n ≤ B.length - n := by omega
+          simp [this, hle]
+
+theorem framingOf_te (hs : List Header) (fr : Framing)
+    (hte : (findHeader hs b!"Transfer-Encoding").isSome = true)
+    (hup : ∀ h, findHeader hs b!"Connection" = some h → containsSub (lower h.value) b!"upgrade" = false)
+    (hf : framingOf hs = .ok fr) :
+    fr.kind = .chunked ∧ fr.bodyLength = none := by
+  unfold framingOf at hf
+  simp only [hte] at hf
+  split at hf
+  · cases hf
+  · split at hf
+    · cases hf
+    · simp only [Except.ok.injEq] at hf
+      subst hf
+      cases hc : findHeader hs b!"Connection" with
+      | none => simp
+      | some h => simp [hup h hc]
+
+theorem kind_cases (up ex : Bool) (n : Nat) :
+    let k : BodyKind := if up then .upgrade
+      else if n = 0 then .empty
+      else if n ≤ Extracted.smallBodyLimit && !ex then .buffered n
+      else .limited n
+    (k = .upgrade ∨ (n = 0 ∧ k = .empty) ∨
+       (0 < n ∧ n ≤ Extracted.smallBodyLimit ∧ ex = false ∧ k = .buffered n) ∨
+       (0 < n ∧ k = .limited n)) := by
+  intro k
+  cases up
+  · by_cases h0 : n = 0
+    · simp [k, h0]
+    · have : 0 < n := by omega
+      by_cases hs : (decide (n ≤ Extracted.smallBodyLimit) && !ex) = true
+      · simp only [k, h0, if_false, hs, if_true]
+        simp at hs
+        simp [this, hs]
+      · simp only [k, h0, if_false, hs]
+        simp [this]
+  · simp [k]
+
+theorem framingOf_cl (hs : List Header) (fr : Framing) (h : Header) (n : Nat)
+    (hte : findHeader hs b!"Transfer-Encoding" = none)
+    (hcl : findHeader hs b!"Content-Length" = some h)
+    (hn : strictContentLength h.value = some n)
+    (hf : framingOf hs = .ok fr) :
+    fr.bodyLength = some n ∧
+      (fr.kind = .upgrade ∨ (n = 0 ∧ fr.kind = .empty) ∨
+       (0 < n ∧ n ≤ Extracted.smallBodyLimit ∧ fr.expectContinue = false ∧ fr.kind = .buffered n) ∨
+       (0 < n ∧ fr.kind = .limited n)) := by
+  unfold framingOf at hf
+  simp only [hte, hcl, hn] at hf
+  split at hf
+  · cases hf
+  · split at hf
+    · cases hf
+    · rename_i ex _
+      simp only [Except.ok.injEq] at hf
+      subst hf
+      refine ⟨by simp, ?_⟩
+      exact kind_cases _ _ _
+
+theorem framingOf_none (hs : List Header) (fr : Framing)
+    (hte : findHeader hs b!"Transfer-Encoding" = none)
+    (hcl : findHeader hs b!"Content-Length" = none)
+    (hf : framingOf hs = .ok fr) :
+    fr.bodyLength = none ∧ (fr.kind = .empty ∨ fr.kind = .upgrade) := by
+  unfold framingOf at hf
+  simp only [hte, hcl] at hf
+  split at hf
+  · cases hf
+  · split at hf
+    · cases hf
+    · simp only [Except.ok.injEq] at hf
+      subst hf
+      refine ⟨by simp, ?_⟩
+      simp only [Option.isSome_none, Bool.false_eq_true, if_false]
+      split <;> simp
+
+theorem takeSizeField_cr (f rest : Bytes) (hf : ∀ b ∈ f, b ≠ 13 ∧ b ≠ 59) :
+    takeSizeField (f ++ 13 :: rest) = some (f, false, rest) := by
+  induction f with
+  | nil => simp [takeSizeField]
+  | cons b f ih =>
+    have hb := hf b (by simp)
+    have := ih (fun x hx => hf x (by simp [hx]))
+    simp [takeSizeField, hb.1, hb.2, this]
+
+theorem takeSizeField_semi (f rest : Bytes) (hf : ∀ b ∈ f, b ≠ 13 ∧ b ≠ 59) :
+    takeSizeField (f ++ 59 :: rest) = some (f, true, rest) := by
+  induction f with
+  | nil => simp [takeSizeField]
+  | cons b f ih =>
+    have hb := hf b (by simp)
+    have := ih (fun x hx => hf x (by simp [hx]))
+    simp [takeSizeField, hb.1, hb.2, this]
+
+theorem skipToCR_clean (e rest : Bytes) (he : ∀ b ∈ e, b ≠ 13) :
+    skipToCR (e ++ 13 :: rest) = some rest := by
+  induction e with
+  | nil => simp [skipToCR]
+  | cons b e ih =>
+    have hb := he b (by simp)
+    have := ih (fun x hx => he x (by simp [hx]))
+    simp [skipToCR, hb, this]
+
+theorem readChunkSize_line (f ext rest : Bytes) (n : Nat) (fin : EndState)
+    (hf : f.all (fun b => b != 13 && b != 59 && b < 128) = true)
+    (ht : trim f = f) (hn : usizeFromHex f = some n)
+    (he : ext.isEmpty = true ∨ (ext.head? = some 59 ∧ ext.all (· != 13) = true)) :
+    readChunkSize (f ++ ext ++ crlf ++ rest) fin = .ok n rest := by
+  have hf1 : ∀ b ∈ f, b ≠ 13 ∧ b ≠ 59 := by
+    intro b hb
+    have := (List.all_eq_true.mp hf) b hb
+    simp at this
+    exact ⟨this.1.1, this.1.2⟩
+  have hf2 : isUtf8Ascii f = true := by
+    unfold isUtf8Ascii
+    apply List.all_eq_true.mpr
+    intro b hb
+    have := (List.all_eq_true.mp hf) b hb
+    simp at this
+    simp [this.2]
+  rcases he with he | ⟨he1, he2⟩
+  · have : ext = [] := by simpa using he
+    subst this
+    have e : f ++ [] ++ crlf ++ rest = f ++ 13 :: (10 :: rest) := by simp [crlf]
+    rw [e]
+    unfold readChunkSize
+    rw [takeSizeField_cr f _ hf1]
+    simp [hf2, ht, hn]
+  · cases ext with
+    | nil => simp at he1
+    | cons x e' =>
+      simp at he1
+      subst he1
+      have he3 : ∀ b ∈ e', b ≠ 13 := by
+        intro b hb
+        have := (List.all_eq_true.mp he2) b (by simp [hb])
+        simpa using this
+      have e : f ++ 59 :: e' ++ crlf ++ rest = f ++ 59 :: (e' ++ 13 :: (10 :: rest)) := by simp [crlf]
+      rw [e]
+      unfold readChunkSize
+      rw [takeSizeField_semi f _ hf1]
+      simp [hf2, ht, hn, skipToCR_clean e' _ he3]
+
+theorem read_chunked_none_ok (want : Nat) (bs r : Bytes) (c : Nat) (fin : EndState)
+    (h : readChunkSize bs fin = .ok c r) (hc : c ≠ 0) :
+    Body.read (.chunked none) want bs fin = Body.read (.chunked (some c)) want r fin := by
+  cases c with
+  | zero => contradiction
+  | succ k =>
+    unfold Body.read
+    simp only [h]
+
+theorem read_chunked_terminal (want : Nat) (bs after : Bytes) (fin : EndState)
+    (h : readChunkSize bs fin = .ok 0 (13 :: 10 :: after)) :
+    Body.read (.chunked none) want bs fin = (.eof, .done, after) := by
+  unfold Body.read
+  simp only [h, expectCRLF]
+
+theorem read_chunked_inside (want : Nat) (d T : Bytes) (fin : EndState) (hd : d ≠ []) :
+    Body.read (.chunked (some d.length)) want (d ++ crlf ++ T) fin =
+      if want < d.length then
+        (.data (d.take want), .chunked (some (d.length - want)), d.drop want ++ crlf ++ T)
+      else (.data d, .chunked none, T) := by
+  have hne : d ++ crlf ++ T ≠ [] := by simp [hd]
+  have hlen : (d ++ crlf ++ T).length = d.length + 2 + T.length := by simp [crlf]; omega
+  have htake : ∀ k, k ≤ d.length → (d ++ crlf ++ T).take k = d.take k := by
+    intro k hk; rw [List.append_assoc, List.take_append_of_le_length hk]
+  have hdrop : ∀ k, k ≤ d.length → (d ++ crlf ++ T).drop k = d.drop k ++ crlf ++ T := by
+    intro k hk; rw [List.append_assoc, List.drop_append_of_le_length hk, List.append_assoc]
+  generalize d ++ crlf ++ T = S at *
+  unfold Body.read
+  simp only []
+  by_cases hw : want < d.length
+  · have h1 : min want S.length = want := by omega
+    have h2 : want ≤ d.length := by omega
+    simp only [hw, if_true, h1, htake _ h2, hdrop _ h2]
+  · have h1 : min d.length S.length = d.length := by omega
+    simp only [hw, if_false, h1, if_true, htake _ (Nat.le_refl _), hdrop _ (Nat.le_refl _)]
+    simp [crlf, expectCRLF]
+
+/-! ## chunked bodies -/
+
+section Chunked
+open Spec
+
+/-- hypotheses on the terminal chunk's size field. -/
+def ZeroOk (zero : Bytes) : Prop :=
+  usizeFromHex zero = some 0 ∧ zero.all (fun b => b != 13 && b != 59 && b < 128) = true ∧ trim zero = zero
+
+/-- the decoder state `ic`, the remaining stream `S` and the remaining payload `P` are in step. -/
+inductive ChunkPos (zero after : Bytes) : Option Nat → Bytes → Bytes → Prop
+  | line (cs : List SentChunk) (hcs : ∀ c ∈ cs, wfChunk c = true) :
+      ChunkPos zero after none (renderChunked cs zero ++ after) (chunkPayload cs)
+  | inside (d : Bytes) (cs : List SentChunk) (hd : d ≠ []) (hcs : ∀ c ∈ cs, wfChunk c = true) :
+      ChunkPos zero after (some d.length) (d ++ crlf ++ (renderChunked cs zero ++ after)) (d ++ chunkPayload cs)
+
+theorem renderChunked_nil (zero after : Bytes) :
+    renderChunked [] zero ++ after = zero ++ [] ++ crlf ++ (13 :: 10 :: after) := by
+  simp [renderChunked, crlf]
+
+theorem renderChunked_cons (c : SentChunk) (cs : List SentChunk) (zero after : Bytes) :
+    renderChunked (c :: cs) zero ++ after =
+      c.sizeField ++ c.ext ++ crlf ++ (c.data ++ crlf ++ (renderChunked cs zero ++ after)) := by
+  simp [renderChunked, renderChunk]
+
+theorem chunkPayload_cons (c : SentChunk) (cs : List SentChunk) :
+    chunkPayload (c :: cs) = c.data ++ chunkPayload cs := by
+  simp [chunkPayload]
+
+theorem wfChunk_parts (c : SentChunk) (h : wfChunk c = true) :
+    c.data ≠ [] ∧ usizeFromHex c.sizeField = some c.data.length ∧
+    c.sizeField.all (fun b => b != 13 && b != 59 && b < 128) = true ∧ trim c.sizeField = c.sizeField ∧
+    (c.ext.isEmpty = true ∨ (c.ext.head? = some 59 ∧ c.ext.all (· != 13) = true)) := by
+  unfold wfChunk at h
+  simp only [Bool.and_eq_true, Bool.or_eq_true, Bool.not_eq_true', beq_iff_eq] at h
+  obtain ⟨⟨⟨⟨h1, h2⟩, h3⟩, h4⟩, h5⟩ := h
+  refine ⟨by simpa using h1, h2, h3, h4, h5⟩
+
+theorem chunk_read_inside_step (zero after : Bytes) (d : Bytes) (cs : List SentChunk) (hd : d ≠ [])
+    (hcs : ∀ c ∈ cs, wfChunk c = true) (want : Nat) (fin : EndState) (hw : 1 ≤ want) :
+    ∃ n ic' S', 1 ≤ n ∧ n ≤ want ∧ n ≤ (d ++ chunkPayload cs).length ∧
+      Body.read (.chunked (some d.length)) want (d ++ crlf ++ (renderChunked cs zero ++ after)) fin =
+        (.data ((d ++ chunkPayload cs).take n), .chunked ic', S') ∧
+      ChunkPos zero after ic' S' ((d ++ chunkPayload cs).drop n) ∧
+      S'.length + n ≤ (d ++ crlf ++ (renderChunked cs zero ++ after)).length := by
+  have hdl : 1 ≤ d.length := by
+    cases d with
+    | nil => contradiction
+    | cons _ _ => simp
+  rw [read_chunked_inside want d _ fin hd]
+  by_cases hlt : want < d.length
+  · have hle : want ≤ d.length := by omega
+    refine ⟨want, some (d.drop want).length, d.drop want ++ crlf ++ (renderChunked cs zero ++ after),
+      hw, Nat.le_refl _, by simp; omega, ?_, ?_, ?_⟩
+    · simp [hlt, List.take_append_of_le_length hle]
+    · rw [List.drop_append_of_le_length hle]
+      exact ChunkPos.inside _ cs (by intro h; have := congrArg List.length h; simp at this; omega) hcs
+    · simp; omega
+  · refine ⟨d.length, none, renderChunked cs zero ++ after, hdl, by omega, by simp, ?_, ?_, ?_⟩
+    · simp [hlt]
+    · simp only [List.drop_left]
+      exact ChunkPos.line cs hcs
+    · simp only [List.length_append]; omega
+
+theorem chunk_read_step (zero after : Bytes) (hz : ZeroOk zero) (ic : Option Nat) (S P : Bytes)
+    (hp : ChunkPos zero after ic S P) (want : Nat) (fin : EndState) (hw : 1 ≤ want) :
+    (P = [] ∧ Body.read (.chunked ic) want S fin = (.eof, .done, after)) ∨
+    (∃ n ic' S', 1 ≤ n ∧ n ≤ want ∧ n ≤ P.length ∧
+      Body.read (.chunked ic) want S fin = (.data (P.take n), .chunked ic', S') ∧
+      ChunkPos zero after ic' S' (P.drop n) ∧ S'.length + n ≤ S.length) := by
+  cases hp with
+  | inside d cs hd hcs =>
+    right
+    exact chunk_read_inside_step zero after d cs hd hcs want fin hw
+  | line cs hcs =>
+    cases cs with
+    | nil =>
+      left
+      refine ⟨by simp [chunkPayload], ?_⟩
+      apply read_chunked_terminal
+      rw [renderChunked_nil]
+      exact readChunkSize_line zero [] _ 0 fin hz.2.1 hz.2.2 hz.1 (Or.inl rfl)
+    | cons c cs =>
+      right
+      obtain ⟨h1, h2, h3, h4, h5⟩ := wfChunk_parts c (hcs c (by simp))
+      have hcs' : ∀ x ∈ cs, wfChunk x = true := fun x hx => hcs x (by simp [hx])
+      have hdl : c.data.length ≠ 0 := by simpa using h1
+      have hsz := readChunkSize_line c.sizeField c.ext
+        (c.data ++ crlf ++ (renderChunked cs zero ++ after)) c.data.length fin h3 h4 h2 h5
+      rw [renderChunked_cons, chunkPayload_cons, read_chunked_none_ok want _ _ _ fin hsz hdl]
+      obtain ⟨n, ic', S', a1, a2, a3, a4, a5, a6⟩ :=
+        chunk_read_inside_step zero after c.data cs h1 hcs' want fin hw
+      refine ⟨n, ic', S', a1, a2, a3, a4, a5, ?_⟩
+      simp only [List.length_append] at a6 ⊢
+      omega
+
+
+theorem chunked_readUpTo (zero after : Bytes) (hz : ZeroOk zero) (buf : Nat) (fin : EndState) (hb : 1 ≤ buf)
+    (fuel : Nat) : ∀ (ic : Option Nat) (S P : Bytes) (total : Nat),
+    ChunkPos zero after ic S P → total < fuel →
+    (Body.readUpTo fuel (.chunked ic) buf total S fin).1 = P.take total ∧
+    (total ≤ P.length →
+      ∃ ic' S', Body.readUpTo fuel (.chunked ic) buf total S fin = (P.take total, none, .chunked ic', S') ∧
+        ChunkPos zero after ic' S' (P.drop total)) ∧
+    (P.length < total →
+      Body.readUpTo fuel (.chunked ic) buf total S fin = (P, some .eof, .done, after)) := by
+  induction fuel with
+  | zero => intro ic S P total hp hf; omega
+  | succ fuel ih =>
+    intro ic S P total hp hf
+    rw [Body.readUpTo]
+    by_cases ht : total = 0
+    · subst ht
+      refine ⟨by simp, fun _ => ⟨ic, S, by simp, by simpa using hp⟩, fun h => by omega⟩
+    · simp only [ht, if_false]
+      rcases chunk_read_step zero after hz ic S P hp (min buf total) fin (by omega) with
+        ⟨hP, hr⟩ | ⟨n, ic', S', h1, h2, h3, hr, hp', _⟩
+      · subst hP
+        rw [hr]
+        refine ⟨by simp, fun h => by simp at h; omega, fun _ => rfl⟩
+      · rw [hr]
+        have hPne : P ≠ [] := by intro h; subst h; simp at h3; omega
+        have hne : (P.take n).isEmpty = false := take_isEmpty_false P n hPne h1
+        have htl : (P.take n).length = n := by simp; omega
+        simp only [hne, Bool.false_eq_true, if_false, htl]
+        have hnt : n ≤ total := by omega
+        obtain ⟨i1, i2, i3⟩ := ih ic' S' (P.drop n) (total - n) hp' (by omega)
+        have hdl : (P.drop n).length = P.length - n := by simp
+        refine ⟨?_, ?_, ?_⟩
+        · show P.take n ++ (Body.readUpTo fuel (.chunked ic') buf (total - n) S' fin).1 = _
+          rw [i1, take_take_drop P n total hnt]
+        · intro hle
+          obtain ⟨ic'', S'', e, hp''⟩ := i2 (by omega)
+          refine ⟨ic'', S'', ?_, ?_⟩
+          · rw [e, take_take_drop P n total hnt]
+          · have : n + (total - n) = total := by omega
+            simpa [List.drop_drop, this] using hp''
+        · intro hlt
+          rw [i3 (by omega)]
+          simp
+
+theorem chunked_drain (zero after : Bytes) (hz : ZeroOk zero) (fin : EndState)
+    (fuel : Nat) : ∀ (ic : Option Nat) (S P : Bytes),
+    ChunkPos zero after ic S P → S.length + 1 ≤ fuel →
+    Body.drain fuel (.chunked ic) S fin = some after := by
+  induction fuel with
+  | zero => intro ic S P hp hf; omega
+  | succ fuel ih =>
+    intro ic S P hp hf
+    rw [Body.drain]
+    rcases chunk_read_step zero after hz ic S P hp 4096 fin (by omega) with
+      ⟨_, hr⟩ | ⟨n, ic', S', h1, _, _, hr, hp', hl⟩
+    · rw [hr]
+    · rw [hr]
+      exact ih ic' S' _ hp' (by omega)
+
+end Chunked
+
+/-! ## `handle`: the stream position after a request was handled -/
+
+/-- the read phase of `handle`. -/
+def readPhase (a : Action) (body : Body) (bs : Bytes) (fin : EndState) : Bytes × Option ReadOut × Body × Bytes :=
+  if a.asReaderCalls > 0 && a.readTotal > 0 then
+    Body.readUpTo (a.readTotal + 1) body (max a.bufSize 1) a.readTotal bs fin
+  else ([], none, body, bs)
+
+theorem handle_offset (s : St) (h : Head) (fr : Framing) (last : Bool) (a : Action) (body : Body)
+    (bs after : Bytes) (fin : EndState)
+    (hnp : (readPhase a body bs fin).2.1 ≠ some .pending)
+    (hdr : Body.drain ((readPhase a body bs fin).2.2.2.length + 2) (readPhase a body bs fin).2.2.1
+      (readPhase a body bs fin).2.2.2 fin = some after) :
+    (handle s h fr last a body bs fin).2.1 = after ∧ (handle s h fr last a body bs fin).2.2 = false := by
+  unfold handle
+  unfold readPhase at hnp hdr
+  simp only [] at hnp hdr ⊢
+  generalize (if (decide (a.asReaderCalls > 0) && decide (a.readTotal > 0)) = true then
+      Body.readUpTo (a.readTotal + 1) body (max a.bufSize 1) a.readTotal bs fin
+    else ([], none, body, bs)) = rp at hnp hdr ⊢
+  obtain ⟨got, rend, body1, bs1⟩ := rp
+  simp only [] at hnp hdr ⊢
+  rw [hdr]
+  cases rend with
+  | none => exact ⟨rfl, rfl⟩
+  | some o =>
+    cases o with
+    | pending => exact absurd rfl hnp
+    | data d => exact ⟨rfl, rfl⟩
+    | eof => exact ⟨rfl, rfl⟩
+    | err => exact ⟨rfl, rfl⟩
+
+
+theorem readPhase_cases (a : Action) (body : Body) (bs : Bytes) (fin : EndState) :
+    readPhase a body bs fin = ([], none, body, bs) ∨
+    readPhase a body bs fin = Body.readUpTo (a.readTotal + 1) body (max a.bufSize 1) a.readTotal bs fin := by
+  unfold readPhase
+  split
+  · exact Or.inr rfl
+  · exact Or.inl rfl
+
+theorem drain_limited (fuel r : Nat) (bs : Bytes) (fin : EndState) (hf : 0 < fuel) (hr : r ≤ bs.length) :
+    Body.drain fuel (.limited r) bs fin = some (bs.drop r) := by
+  cases fuel with
+  | zero => omega
+  | succ f => simp [Body.drain, hr]
+
+theorem drain_done (fuel : Nat) (bs : Bytes) (fin : EndState) :
+    Body.drain fuel .done bs fin = some bs := by
+  cases fuel <;> simp [Body.drain]
+
+theorem drain_cursor (fuel : Nat) (d bs : Bytes) (fin : EndState) :
+    Body.drain fuel (.cursor d) bs fin = some bs := by
+  cases fuel <;> simp [Body.drain]
+
+theorem handle_limited (s : St) (h : Head) (fr : Framing) (last : Bool) (a : Action)
+    (B after : Bytes) (fin : EndState) :
+    (handle s h fr last a (.limited B.length) (B ++ after) fin).2.1 = after ∧
+    (handle s h fr last a (.limited B.length) (B ++ after) fin).2.2 = false := by
+  apply handle_offset
+  · rcases readPhase_cases a (.limited B.length) (B ++ after) fin with e | e
+    · rw [e]; simp
+    · rw [e, limited_readUpTo _ B after _ _ fin (by omega) (by omega)]
+      split <;> simp
+  · rcases readPhase_cases a (.limited B.length) (B ++ after) fin with e | e
+    · rw [e]
+      simp only []
+      rw [drain_limited _ _ _ fin (by omega) (by simp)]
+      simp
+    · rw [e, limited_readUpTo _ B after _ _ fin (by omega) (by omega)]
+      split
+      · rename_i hle
+        simp only []
+        rw [drain_limited _ _ _ fin (by omega) (by simp)]
+        have : (B.drop a.readTotal).length = B.length - a.readTotal := by simp
+        rw [← this, List.drop_left]
+      · simp only []
+        rw [drain_done]
+
+theorem handle_cursor (s : St) (h : Head) (fr : Framing) (last : Bool) (a : Action)
+    (B after : Bytes) (fin : EndState) :
+    (handle s h fr last a (.cursor B) after fin).2.1 = after ∧
+    (handle s h fr last a (.cursor B) after fin).2.2 = false := by
+  apply handle_offset
+  · rcases readPhase_cases a (.cursor B) after fin with e | e
+    · rw [e]; simp
+    · rw [e, cursor_readUpTo _ B after _ _ fin (by omega) (by omega)]
+      split <;> simp
+  · rcases readPhase_cases a (.cursor B) after fin with e | e
+    · rw [e]
+      simp only []
+      rw [drain_cursor]
+    · rw [e, cursor_readUpTo _ B after _ _ fin (by omega) (by omega)]
+      split
+      · simp only []
+        rw [drain_cursor]
+      · simp only []
+        rw [drain_cursor]
+
+theorem handle_done (s : St) (h : Head) (fr : Framing) (last : Bool) (a : Action)
+    (after : Bytes) (fin : EndState) :
+    (handle s h fr last a .done after fin).2.1 = after ∧
+    (handle s h fr last a .done after fin).2.2 = false := by
+  have key : readPhase a .done after fin = ([], none, .done, after) ∨
+      readPhase a .done after fin = ([], some .eof, .done, after) := by
+    unfold readPhase
+    split
+    · rename_i hc
+      simp at hc
+      right
+      exact done_readUpTo after _ _ _ fin hc.2 (by omega)
+    · exact Or.inl rfl
+  apply handle_offset
+  · rcases key with e | e <;> rw [e] <;> simp
+  · rcases key with e | e <;> rw [e] <;> simp only [] <;> rw [drain_done]
+
+theorem handle_chunked (s : St) (h : Head) (fr : Framing) (last : Bool) (a : Action)
+    (cs : List Spec.SentChunk) (zero after : Bytes) (fin : EndState)
+    (hcs : ∀ c ∈ cs, Spec.wfChunk c = true) (hz : ZeroOk zero) :
+    (handle s h fr last a (.chunked none) (Spec.renderChunked cs zero ++ after) fin).2.1 = after ∧
+    (handle s h fr last a (.chunked none) (Spec.renderChunked cs zero ++ after) fin).2.2 = false := by
+  have hp0 := ChunkPos.line (zero := zero) (after := after) cs hcs
+  have key : (∃ ic S P, ChunkPos zero after ic S P ∧
+        readPhase a (.chunked none) (Spec.renderChunked cs zero ++ after) fin = (Spec.chunkPayload cs |>.take a.readTotal, none, .chunked ic, S)) ∨
+      readPhase a (.chunked none) (Spec.renderChunked cs zero ++ after) fin =
+        (Spec.chunkPayload cs, some .eof, .done, after) ∨
+      readPhase a (.chunked none) (Spec.renderChunked cs zero ++ after) fin =
+        ([], none, .chunked none, Spec.renderChunked cs zero ++ after) := by
+    rcases readPhase_cases a (.chunked none) (Spec.renderChunked cs zero ++ after) fin with e | e
+    · exact Or.inr (Or.inr e)
+    · obtain ⟨_, i2, i3⟩ := chunked_readUpTo zero after hz (max a.bufSize 1) fin (by omega)
+        (a.readTotal + 1) none _ _ a.readTotal hp0 (by omega)
+      by_cases hle : a.readTotal ≤ (Spec.chunkPayload cs).length
+      · obtain ⟨ic', S', e', hp'⟩ := i2 hle
+        exact Or.inl ⟨ic', S', _, hp', by rw [e, e']⟩
+      · exact Or.inr (Or.inl (by rw [e, i3 (by omega)]))
+  apply handle_offset
+  · rcases key with ⟨ic, S, P, _, e⟩ | e | e <;> rw [e] <;> simp
+  · rcases key with ⟨ic, S, P, hp, e⟩ | e | e
+    · rw [e]
+      simp only []
+      exact chunked_drain zero after hz fin _ ic S P hp (by omega)
+    · rw [e]
+      simp only []
+      rw [drain_done]
+    · rw [e]
+      simp only []
+      exact chunked_drain zero after hz fin _ none _ _ hp0 (by omega)
+
 end TH
